@@ -22,6 +22,12 @@ def run(ctx):
     small = {"KeysRun.tla": keyslib.module(systems[:1], {systems[0]["id"]: dict(c=[8, 5, 3, 4], r=[8, 9, 5, 4])}, ["f", "g"])}
     ctx.tlc("KeysRun", keyslib.cfg(4, "all", view=True), files=small, label="KeysFile mc with crashes at every offset (tiny lengths)", timeout=1200)
     ctx.expect_mutant_violates("KeysRun", keyslib.cfg(3, "all", variant="stop-after-vk", view=True), "KeysFile reader mutant stop-after-vk", files=small)
+    # names that are hard links / symbolic links to another name's file: conversion between two NAMES of one file is an in-place conversion
+    inv = ("NeverHalfLoaded", "RoundTrip", "LastReadFaithful", "ConvertKeeps")
+    three = {"KeysRun.tla": keyslib.module(systems[:2], fake, ["f", "g", "h"])}
+    ctx.tlc("KeysRun", keyslib.cfg(4 if ctx.quick else 5, "none", view=True, links=True, invariants=inv), files=three, label="KeysFile mc with links (3 names)", timeout=2400, heap="16g")
+    ctx.expect_mutant_violates("KeysRun", keyslib.cfg(4, "none", view=True, links=True, convert="create-first", invariants=inv),
+                               "KeysFile convert mutant create-first (output created before the source is read unless the names are equal)", files=three)
     # behaviours for replay
     n = 16 if ctx.quick else 160
     r = ctx.tlc("KeysRun", keyslib.cfg(4 if ctx.quick else 6, "none", export=True), files=mod, simulate="num=%d" % (n * 3), depth=8, workers=4, label="KeysFile behaviours")
@@ -44,7 +50,25 @@ def run(ctx):
         # in-place conversion, of a compressed and of an already raw file
         [dict(op="write", sys=a, fmt="c", file="f"), dict(op="convert", file="f", to="f", ok=True, sys=a), dict(op="read", file="f", ok=True, sys=a)],
         [dict(op="write", sys=b, fmt="r", file="g"), dict(op="convert", file="g", to="g", ok=True, sys=b), dict(op="convert", file="g", to="f", ok=True, sys=b), dict(op="read", file="g", ok=True, sys=b)],
+        # conversion between two names of one file (hard link, symbolic link), in both directions, then the file is still the system
+        [dict(op="write", sys=a, fmt="c", file="f"), dict(op="link", file="f", to="g", kind="hard"), dict(op="convert", file="f", to="g", ok=True, sys=a), dict(op="read", file="f", ok=True, sys=a)],
+        [dict(op="write", sys=b, fmt="c", file="f"), dict(op="link", file="f", to="g", kind="sym"), dict(op="convert", file="g", to="f", ok=True, sys=b), dict(op="read", file="g", ok=True, sys=b)],
+        [dict(op="write", sys=a, fmt="r", file="f"), dict(op="link", file="f", to="g", kind="sym"), dict(op="convert", file="f", to="g", ok=True, sys=a), dict(op="write", sys=b, fmt="c", file="g"), dict(op="read", file="f", ok=True, sys=b)],
     ]
+    rl = ctx.tlc("KeysRun", keyslib.cfg(4 if ctx.quick else 6, "none", export=True, links=True), files={"KeysRun.tla": keyslib.module(systems[:2], fake, ["f", "g", "h"])},
+                 simulate="num=%d" % (n * 6), depth=8, workers=4, label="KeysFile behaviours with links")
+    nl = 0
+    for t in rl["traces"]:
+        k = json.dumps(t, sort_keys=True)
+        li = [i for i, o in enumerate(t) if o["op"] == "link"]
+        if k in seen or not li or not any(o["op"] in ("read", "convert") and o.get("ok") for o in t[li[0]:]):
+            continue
+        seen.add(k)
+        must.append(t)
+        nl += 1
+        if nl >= (6 if ctx.quick else 60):
+            break
+    ctx.cov["behaviours_with_links"] = nl + 3
     beh = must + beh[:max(0, n - len(must))]
     res = ctx.run_vh(["c11"], dict(systems=systems, behaviours=beh, dir=ctx.scratch, cli=ctx.build_cli()), timeout=3400)
     if len(res) != len(beh):
